@@ -121,11 +121,24 @@ Proof. intros X A Hs; exact (krylov_step X A Hs). Qed.
 (* residual |b - A x|^2 never increases (any A with adjoint, any b, start, budget, and any value of
    the relative stopping constant eps2 = np.finfo(float).eps ** 2) *)
 Theorem cgn_residual_nonincreasing :
-  forall (X Y : IPS) (A : LinOp X Y) (eps2 : R) (b : Y) (x : X) (n : nat),
+  forall (X Y : IPS) (A : LinOp X Y) (eps2 epsm : R), 0 <= epsm -> forall (b : Y) (x : X) (n : nat),
   nonincr (fun s => nsq (b -' A (n_x X Y s)))
-          (cgn_init X Y inner vplus smul A (adj A) eps2 b x)
-          (cgn_run X Y vplus smul inner vplus smul inner A (adj A) eps2 b x n).
+          (cgn_init X Y inner vplus smul inner A (adj A) eps2 b x)
+          (cgn_run X Y vplus smul inner vplus smul inner A (adj A) eps2 epsm b x n).
 Proof. exact cgn_residual_all. Qed.
+(* the guard of fix b290190 (stop and undo when the residual of the trial step exceeds the old one by more than
+   rounding) never fires in exact arithmetic -- so the theorems above are unchanged by it -- and when it does
+   fire (floats) it leaves x exactly where the iteration started *)
+Theorem cgn_guard_never_fires_in_exact_arithmetic :
+  forall (X Y : IPS) (A : LinOp X Y) (eps2 epsm : R), 0 <= epsm ->
+  forall (b : Y) (s : @cgnst R X Y), cgn_inv X Y A b s -> nsq (A (n_p X Y s)) <> 0 ->
+  Rltb (n_dd X Y s * (1 + 100 * epsm))
+       (nsq (n_d X Y s +' (- (n_ss X Y s / nsq (A (n_p X Y s)))) *' A (n_p X Y s))) = false.
+Proof. intros X Y A eps2 epsm H; exact (cgn_guard_never_fires_exact X Y A epsm H). Qed.
+Theorem cgn_guard_exit_restores_x :
+  forall (X Y : IPS) (A : X -> Y) (At : Y -> X) (epsm : R) (s : @cgnst R X Y),
+  gen_cgn_exit1_x X Y vplus smul vplus smul inner A At epsm s = n_x X Y s.
+Proof. exact gen_cgn_guard_exit_restores_x. Qed.
 Print Assumptions cgn_residual_nonincreasing.
 
 (* ------------------------------------------------------------- power method *)
@@ -443,9 +456,10 @@ Theorem regenerated_cg_is_the_model :
   = cg_run X vplus smul inner A b x n.
 Proof. exact gen_cg_run_is_model. Qed.
 Theorem regenerated_cgn_is_the_model :
-  forall (X Y : IPS) (A : X -> Y) (At : Y -> X) (eps2 : R) (b : Y) (x : X) (n : nat),
-  otrace (gen_cgn_step X Y vplus smul inner vplus smul inner A At) n (gen_cgn_start X Y inner vplus smul A At eps2 b x)
-  = cgn_run X Y vplus smul inner vplus smul inner A At eps2 b x n.
+  forall (X Y : IPS) (A : X -> Y) (At : Y -> X) (eps2 epsm : R) (b : Y) (x : X) (n : nat),
+  otrace (gen_cgn_step X Y vplus smul inner vplus smul inner A At epsm) n
+         (gen_cgn_start X Y inner vplus smul inner A At eps2 b x)
+  = cgn_run X Y vplus smul inner vplus smul inner A At eps2 epsm b x n.
 Proof. exact gen_cgn_run_is_model. Qed.
 Theorem regenerated_power_method_is_the_model :
   forall (X Y : IPS) (A : X -> Y) (At : Y -> X) (S : X -> X) (x : X),
@@ -492,12 +506,12 @@ Theorem regenerated_cg_energy_error_nonincreasing :
 Proof. intros X A Hs Hp b xs x n Hxs. rewrite gen_cg_run_is_model. apply cg_energy_all; auto. Qed.
 Print Assumptions regenerated_cg_energy_error_nonincreasing.
 Theorem regenerated_cgn_residual_nonincreasing :
-  forall (X Y : IPS) (A : LinOp X Y) (eps2 : R) (b : Y) (x : X) (n : nat),
+  forall (X Y : IPS) (A : LinOp X Y) (eps2 epsm : R), 0 <= epsm -> forall (b : Y) (x : X) (n : nat),
   nonincr (fun s => nsq (b -' A (n_x X Y s)))
-          (gen_cgn_start X Y inner vplus smul A (adj A) eps2 b x)
-          (otrace (gen_cgn_step X Y vplus smul inner vplus smul inner A (adj A)) n
-                  (gen_cgn_start X Y inner vplus smul A (adj A) eps2 b x)).
-Proof. intros. rewrite gen_cgn_run_is_model, gen_cgn_start_is_model. apply cgn_residual_all. Qed.
+          (gen_cgn_start X Y inner vplus smul inner A (adj A) eps2 b x)
+          (otrace (gen_cgn_step X Y vplus smul inner vplus smul inner A (adj A) epsm) n
+                  (gen_cgn_start X Y inner vplus smul inner A (adj A) eps2 b x)).
+Proof. intros. rewrite gen_cgn_run_is_model, gen_cgn_start_is_model. apply cgn_residual_all; auto. Qed.
 Theorem regenerated_forward_backward_solution_is_fixed_point :
   forall (X Y : IPS) (f : cfun X) (proxF : R -> X -> X),
   convex X f -> prox_of X f proxF ->
